@@ -33,3 +33,7 @@ pub mod metadata;
 #[cfg(scylla_verif)]
 #[allow(missing_docs)]
 pub use node::verif_hooks as verif_node;
+
+#[cfg(scylla_verif)]
+#[allow(missing_docs)]
+pub use state::verif_hooks as verif_state;
